@@ -40,7 +40,16 @@ RULE = ("person level: every token sequence of length <= 4 (quick; <= 5 sampled 
         "rest sampled; person, list and stack level as above (model compared) and level mwpair (oracle only): the middleware pair "
         "through Middleware.transform with MergeNameParts(style='last') and (style='first'), and parse_string / write_string with "
         "style='first'; last-name-first must re-split into exactly the same persons and parts; first-name-first must do so where "
-        "the independent references read the first-name-first texts joined by ` and ` as these very persons. "
+        "the independent references read the first-name-first texts joined by ` and ` as these very persons; streams lookalike-* "
+        "(c14_lookalike.py): NAME WORDS THAT LOOK LIKE BIBTEX SYNTAX INSIDE BRACES - braced words / groups containing `@word {`, `@w{x}`, "
+        "`@ {`, `@<TAB>{x}` (and near misses), ` = `, ` # `, commas, double quotes, `%`, ` and `, `~`, `--`, tabs, two blanks in a row, "
+        "blanks at the edges, line breaks; the word as `{i}`, `X{i}`, `{i}x`, `x{i}`, `{{i}}`, `{a {i} b}`; alone and as a word of the "
+        "first / von / last / jr part in all three comma forms with every kind of separator between the words; the same look-alikes "
+        "at depth 0 between the words; as the only / last / first / middle person of lists of 1-4 persons, several, the same one "
+        "twice: every inner text in every part, the rest sampled; person, list and stack level (model compared; the stack for the "
+        "values that can be written to a file at all, i.e. without a block-start pattern: K2 / K11), level fnpair (the function pair "
+        "in BOTH merge styles; oracle only) and level mwpair as above: whatever stands inside braces must come back character for "
+        "character. "
         "distinct = distinct input text per level; non-trivial = the premises of the "
         "inverse law hold (valid names, non-empty last, no word ending in an odd number of backslashes) and some name has >= 2 words")
 TRUSTED = ["the inverse laws are checked directly on the implementation's outputs (harness/props/c14.py), the known class K3 by "
@@ -177,6 +186,12 @@ def generate(rng, tier):
     # middleware pair through transform and the stack, BOTH merge styles; oracle only).  Appended last.
     from props import c14_magic
     cases += c14_magic.cases(rng, tier, good, adm_name)
+    # NAME WORDS THAT LOOK LIKE BIBTEX SYNTAX, INSIDE BRACES WHERE IT IS PROTECTED (c14_lookalike.py): braced words / groups with
+    # `@word {`, `@w{x}`, `@ {`, `@<TAB>{x}`, ` = `, ` # `, a comma, a double quote, `%`, ` and `, `~`, `--`, a tab, two blanks in a row -
+    # alone, as first / von / last / jr part, anywhere in lists of 1..4 persons; the same look-alikes at depth 0 between words.
+    # Person, list, stack level (model compared), fnpair and mwpair (both merge styles; oracle only).  Appended last.
+    from props import c14_lookalike
+    cases += c14_lookalike.cases(rng, tier, good, adm_name)
     return cases
 
 
@@ -374,7 +389,7 @@ def gen_session(rng, good, ok):
 
 def shrink(case):
     inp = case["input"]
-    if inp["level"] == "mwpair":
+    if inp["level"] in ("mwpair", "fnpair"):
         from props import c14_magic
         yield from c14_magic.shrink(case)
         return
@@ -417,6 +432,15 @@ def impl(case):
     if kind and isinstance(rec.get("tags"), list):
         # streams magic-*: where the magic person stands in the list (distribution of the evidence file)
         rec["tags"].append("magic_person_is:%s" % kind)
+    look = case["input"].get("lookalike")
+    if look and isinstance(rec.get("tags"), list):
+        # streams lookalike-*: kind of look-alike / part of the person it stands in / where that person stands in the list
+        bits = look.split("/")
+        rec["tags"].append("lookalike_kind:%s" % bits[0])
+        if len(bits) > 1:
+            rec["tags"].append("lookalike_part:%s" % bits[1])
+        if len(bits) > 2:
+            rec["tags"].append("lookalike_person_is:%s" % bits[2])
     return rec
 
 
@@ -435,6 +459,9 @@ def impl_level(case):
     if inp["level"] == "mwpair":
         from props import c14_magic
         return c14_magic.impl(case)
+    if inp["level"] == "fnpair":
+        from props import c14_lookalike
+        return c14_lookalike.impl(case)
 
     def parse(s):
         """('ok', dict) | ('inv', code); other exceptions propagate"""
